@@ -214,10 +214,50 @@ func checkC08(c *Ctx) {
 			}
 			nArms++
 		}
+		// a requested pass is always made: with a reporter configured no path returns without the pass
+		// (a pass that is skipped because "another one is running" drops the final report of Close)
 		if okAll && nArms == 2 {
-			c.ok("O1 report-then-flush", key, rr.Pos(), "registry pass then Flush, for the plain and for the cached reporter")
+			fR, fC := c.field("", "scope", "reporter"), c.field("", "scope", "cachedReporter")
+			passes := map[*ssa.Function]bool{c.fn("", "scopeRegistry", "Report"): true, c.fn("", "scopeRegistry", "CachedReport"): true}
+			isPass := func(in ssa.Instruction) bool {
+				call, ok := in.(*ssa.Call)
+				return ok && passes[staticCallee(call)]
+			}
+			// skip the "not configured" outcomes of the reporter tests: what remains must pass a pass
+			skip := map[*ssa.BasicBlock]int{}
+			for _, b := range rr.Blocks {
+				if iff, isIf := condOf(b); isIf {
+					for _, f := range []*types.Var{fR, fC} {
+						if m, nn := fieldNonNilCond(f)(iff.Cond); m && f == fC {
+							// leaving through "cachedReporter == nil" after "reporter == nil": nothing to report
+							skip[b] = b2i(nn)
+						}
+					}
+				}
+			}
+			if e := entryInstr(rr); e != nil {
+				if esc := reachAvoidingF(e, true, skip, isReturn, isPass); esc != nil {
+					okAll = false
+					c.bad("O1 report-then-flush", key+":always", esc.Pos(), "reportRegistry can return without making the registry pass although a reporter is configured (e.g. because another pass is in flight): a pass requested by Close is dropped and what was recorded since the last pass is never delivered", c.describe(esc))
+				}
+			}
+		}
+		if okAll && nArms == 2 {
+			c.ok("O1 report-then-flush", key, rr.Pos(), "registry pass then Flush, for the plain and for the cached reporter; no path skips the pass")
 		}
 	}
+
+	// scopes obtained after Close are inert: Tagged/SubScope go through the registry, which tests the
+	// closed flags (shared with C07 O4)
+	c.checkDerivationThroughRegistry("O5 through-registry")
+	c.checkInertAndClose("O5 inert-and-close", fClosed)
+	// handles obtained before Close stay harmless: the storage a metric handle indexes is assigned at
+	// construction only (never released or replaced by clearMetrics / Close)
+	c.checkSetOnlyAtConstruction("O5 handles-stay-valid", "", "histogram", "samples", "buckets", "specification", "htype")
+	c.checkSetOnlyAtConstruction("O5 handles-stay-valid", "", "sampleCounter", "counter", "cachedBucket")
+	c.checkSetOnlyAtConstruction("O5 handles-stay-valid", "", "counter", "cachedCount")
+	c.checkSetOnlyAtConstruction("O5 handles-stay-valid", "", "gauge", "cachedGauge")
+	c.checkSetOnlyAtConstruction("O5 handles-stay-valid", "", "timer", "cachedTimer", "name", "tags")
 
 	// ---- O2 WaitGroup ------------------------------------------------------------------------------
 	nAdd := 0
